@@ -234,7 +234,7 @@ LemFaults ==
   LET m == Meaning(ast)  fault == ast.fault IN
   /\ fault.cls \in SyntaxClasses => m.kind = "syntax" /\ m.loc.f = fault.f /\ m.loc.p = fault.p
   /\ fault.cls \in RuleClasses   => m.kind \in {"validation", "ok"}     \* "ok": the key sits in an ignored section
-  /\ fault.cls = "TooBig"        => m.kind = "reject"
+  /\ fault.cls \in {"TooBig", "NoSuchInclude"} => m.kind = "reject"
   /\ fault.cls = ""              => m.kind \in {"ok"} /\ ~m.lenient
   /\ fault.cls \in {"TripleQuote", "QuoteInPattern", "OtherCase", "EmptyPattern"} => m.kind # "ok" \/ m.lenient
 LemmaInv == LemPermute /\ LemSplit /\ LemUnknown /\ LemDefaults /\ LemFaults
